@@ -317,7 +317,6 @@ func c25body(c c25cfg) func(x *vsched.Exec) {
 	}
 }
 
-
 // c25blocking: a dedicated session issues a batch that contains a blocking command (BLPOP on an empty list) with a
 // context that another thread cancels at any point, then releases the session. The connection still has the BLPOP
 // outstanding: it must not be handed to the next holder (it has to be closed), the release must not wait for the
